@@ -620,6 +620,57 @@ for _nd in (1, 2, 3):
                   bound="tensor lengths n_data=%d, n_mc=%d (reduce_sum mixes the batch axis: proof is per length)" % (_nd, _nm))(_mk_nll_value(_nd, _nm, _ext))
 
 
+def _mk_nll_value_resolution(n_ev, R, extended):
+    """the same value formula with a detector-resolution sample: every event is R consecutive rows (w_er, f_er); the event enters with W_e = sum_r w_er and the
+    averaged density sum_r w_er f_er / W_e, and alpha = sum_e W_e / sum_e W_e^2 is built from the PER-EVENT weights (as the gradient paths, which go through
+    _batch_sum, do: the value returned with a gradient must be this stand-alone value)"""
+    def g(ctx):
+        tf = ctx.tf
+        model = ctx.mod("model.model")
+        n = n_ev * R
+        w = ctx.real("w", (n,), lambda r: [r.uniform(0.2, 2) for _ in range(n)])
+        v = ctx.real("v", (2,), lambda r: [r.uniform(0.2, 2) for _ in range(2)])
+        fd = ctx.real("fd", (n,), lambda r: [r.uniform(0.1, 3) for _ in range(n)])
+        fm = ctx.real("fm", (2,), lambda r: [r.uniform(0.1, 3) for _ in range(2)])
+        ctx.require(fd > 1e-6, "densities above the clip of clip_log")
+        ctx.require(fm > 0.0)
+        ctx.require(v > 0.0)
+        ctx.require(w > 0.0, "positive resolution weights (signed / zero weights: bounded groups)")
+        data = {"weight": w, "_tag": "data"}
+        mc = {"weight": v, "_tag": "mc"}
+
+        class Sig:
+            vm = None
+            trainable_variables = []
+
+            def __call__(self, d):
+                return fd if d["_tag"] == "data" else fm
+
+        bm = model.BaseModel(Sig(), resolution_size=R, extended=extended)
+        nll = bm.nll(data, mc)
+        W = [sum((w[e * R + r] for r in range(1, R)), w[e * R]) for e in range(n_ev)]
+        F = [sum((w[e * R + r] * fd[e * R + r] for r in range(1, R)), w[e * R] * fd[e * R]) / W[e] for e in range(n_ev)]
+        for e in range(n_ev):
+            ctx.require(F[e] > 1e-6)
+        sW = sum(W[1:], W[0])
+        sW2 = sum((x * x for x in W[1:]), W[0] * W[0])
+        alpha = sW / sW2
+        integ = tf.reduce_sum(v * fm) / tf.reduce_sum(v)
+        ll = sum((W[e] * tf.math.log(F[e]) for e in range(1, n_ev)), W[0] * tf.math.log(F[0]))
+        spec = -alpha * (ll - sW * (integ if extended else tf.math.log(integ)))
+        ctx.eq("value", nll, spec, clause="BaseModel.nll with resolution_size=%d == -alpha [sum_e W_e ln(sum_r w_er f_er / W_e) - (sum_e W_e) %s(I)], W_e = sum_r w_er, "
+                                          "alpha = sum_e W_e / sum_e W_e^2 (per-EVENT weights)" % (R, "" if extended else "ln"))
+
+    return g
+
+
+for _ne in (1, 2):
+    for _ext in (False, True):
+        group(["C06", "C07"], "model.BaseModel.nll/value_resolution/events=%d/R=2/%s" % (_ne, "extended" if _ext else "default"),
+              ["model.model:BaseModel.nll", "model.model:clip_log", "model.model:BaseModel.sum_resolution"], no_native=True,
+              bound="%d events of 2 resolution rows each, 2 phase-space rows (proof is per length)" % _ne)(_mk_nll_value_resolution(_ne, 2, _ext))
+
+
 @group(["C06"], "model.clip_log", ["model.model:clip_log"], no_native=True)
 def clip_log_contract(ctx):
     tf = ctx.tf
